@@ -5,8 +5,11 @@
    they are the floats the code computes, carried as exact rationals. No proofs here. *)
 From Coq Require Import ZArith QArith List Bool Lia.
 Import ListNotations.
-From SCK Require Import ElicitM.
+From SCK Require Import Argsort ElicitM.
 Local Open Scope Z_scope.
+
+(* np.argsort of a row of 1-based ranks: the proved stable argsort on the 0-based keys *)
+Definition rank_list (row : list Z) : list Z := map Z.of_nat (Argsort.argsort (map (fun r => Some (Z.to_nat (r - 1))) row)).
 
 Definition rkat (rk : list Z) (p : Z) : Z := nth (Z.to_nat p) rk 0.
 (* positions lo+1 .. hi of the ranking get value v *)
@@ -37,13 +40,13 @@ End Thr.
 Definition thr_rule (profile : list (list Z)) (k : nat) (tau : list (list Q)) (byquery : bool) (init : Q) : prog (list (list Q)) :=
   let n := length profile in
   let m := Z.of_nat (length (nth 0 profile [])) in
-  thrP (map argsortz profile) tau byquery n m k init.
+  thrP (map rank_list profile) tau byquery n m k init.
 
 (* lambda-PRV: each voter is asked its lambda best alternatives; scores are accumulated per alternative *)
 Definition prvP (profile : list (list Z)) (lam : nat) : prog (list Q) :=
   let n := length profile in
   let m := length (nth 0 profile []) in
-  let ranked := map argsortz profile in
+  let ranked := map rank_list profile in
   foldP (fun (sc : list Q) (ip : nat * nat) =>
            let j := rkat (nth (fst ip) ranked []) (Z.of_nat (snd ip)) in
            Ask (Z.of_nat (fst ip), j) (fun v => Ret (updz sc (Z.to_nat j) (Qred (nth (Z.to_nat j) sc 0%Q + v)))))
@@ -54,7 +57,7 @@ Definition prvP (profile : list (list Z)) (lam : nat) : prog (list Q) :=
 Definition rootn_sd (profile : list (list Z)) : list Z :=
   let n := length profile in
   let m := length (nth 0 profile []) in
-  let ranked := map argsortz profile in
+  let ranked := map rank_list profile in
   fst (fold_left (fun (st : list Z * list nat) i =>
                     let '(alloc, cnt) := st in
                     match find (fun j => (nth (Z.to_nat j) cnt O * nth (Z.to_nat j) cnt O <? n)%nat) (nth i ranked []) with
@@ -64,7 +67,7 @@ Definition rootn_sd (profile : list (list Z)) : list Z :=
 Definition m2qP (profile : list (list Z)) (eps : Q) : prog (list (list Q)) :=
   let n := length profile in
   let m := length (nth 0 profile []) in
-  let ranked := map argsortz profile in
+  let ranked := map rank_list profile in
   let A := rootn_sd profile in
   vfav <- mapP (askfav ranked) (seq 0 n) ;;
   let vt0 := map (fun i => updz (repeat eps m) (Z.to_nat (rkat (nth i ranked []) 0)) (nth i vfav 0%Q)) (seq 0 n) in
